@@ -346,6 +346,20 @@ def gen(rng: random.Random, h5rec: Dict[str, Any], stage: int, job: Dict[str, An
                                                       "del_attr": 0, "copy": 0, "move": 0, "require_group": 0})
         a.update(op="pack", p=e["p"], tok=rng.choice(list(BYTES)))
         return a
+    ghosts = [g for g in job.get("_ghosts", ()) if not any(n["p"] == g for n in tree)
+              and not any(n["k"] == "d" and g[: len(n["p"])] == n["p"] for n in tree if n["p"])]
+    fresh_ghosts = [g for g in ghosts if g in job.get("_fresh_ghosts", ())]
+    # a fresh node at a path where an annotated node used to be in this session (deleted, or moved away with its group):
+    # most telling right after the node went away, whatever kind of operation would have been next
+    if (fresh_ghosts and rng.random() < 0.7) or (ghosts and r >= 0.45 and rng.random() < job.get("resurrect_annotated", 0.15)):
+        g = rng.choice(fresh_ghosts or ghosts)
+        if fresh_ghosts and rng.random() < 0.6:     # preferably a node that went away together with a group above it
+            g = max(fresh_ghosts, key=len)
+        if rng.random() < 0.7:
+            a.update(op="set_dataset", p=g, v=rng.choice(["v1", "v2"]), how=rng.choice(["setitem", "create_dataset"]))
+        else:
+            a.update(op="create_group", p=g)
+        return a
     if r < 0.30:
         a["op"] = "attach"
         a["p"] = rng.choice(nodes) if rng.random() < 0.92 else ["zz", "nope"]
@@ -398,16 +412,6 @@ def gen(rng: random.Random, h5rec: Dict[str, Any], stage: int, job: Dict[str, An
                 if a["q"][: len(a["p"])] == a["p"]:
                     a["op"], a["q"] = "delete", []
             return a
-    ghosts = [g for g in job.get("_ghosts", ()) if not any(n["p"] == g for n in tree)
-              and not any(n["k"] == "d" and g[: len(n["p"])] == n["p"] for n in tree if n["p"])]
-    if ghosts and rng.random() < job.get("resurrect_annotated", 0.15):
-        # a fresh node at a path where an annotated node used to be (deleted, or moved away with its group) in this session
-        g = rng.choice(ghosts)
-        if rng.random() < 0.7:
-            a.update(op="set_dataset", p=g, v=rng.choice(["v1", "v2"]), how=rng.choice(["setitem", "create_dataset"]))
-        else:
-            a.update(op="create_group", p=g)
-        return a
     e = h5lib.gen_op(rng, tree, depth=job.get("depth", 3), values=["v1", "v2", "v3", "v8"],
                      weights=job.get("data_weights") or {"copy": 3.5, "move": 3, "delete": 3, "set_attr": 1.5, "del_attr": 0.7},
                      allow_copy_into_self=False, attr_keys=job.get("attr_keys"))
@@ -448,6 +452,7 @@ def run_history(job: Dict[str, Any], emit, scratch: Path, tk: h5lib.Tokens, env:
         h5rec = None
         step = 0
         ghosts_seen: List[List[str]] = []
+        present_before: List[List[str]] = []
         n = job.get("nops", 14)
         prev = None
         while step < n:
@@ -486,6 +491,9 @@ def run_history(job: Dict[str, Any], emit, scratch: Path, tk: h5lib.Tokens, env:
                 if m_["node"] and m_["node"] not in ghosts_seen:
                     ghosts_seen.append(m_["node"])
             job["_ghosts"] = ghosts_seen
+            now = [n_["p"] for n_ in prev["tree"]]
+            job["_fresh_ghosts"] = [g_ for g_ in present_before if g_ not in now]
+            present_before = [g_ for g_ in ghosts_seen if g_ in now]
             a = gen(rng, prev, env.stage, job)
             ro_failed = None
             if a["op"] != "pack" and rng.random() < job.get("p_ro", 0.07):
